@@ -9,6 +9,8 @@ Clauses of the statement -> checks
         C15/robust-osc           OSC strings with valid/invalid payloads and every terminator
         C15/robust-charset-utf8  charset designations/shifts x valid, truncated, invalid UTF-8
         C15/robust-view-shape    scrolled-back view x resizes: content() stays height x width
+        C15/robust-tabs-resize   widening across multiples of 8 columns, then HT / HTS / TBC in the new columns
+                                 (cursor column against a VT100 tab-stop oracle: default stops persist / extend)
       "a grid of exactly height rows by width cells" also means height x width *independent* cells: after every
       step of every history no two rows of `term` / the scroll-back are one and the same list object (`aliasing`;
       a write to one of two aliased rows shows up in the other).  The deductive contracts hold rows by value and
@@ -265,6 +267,8 @@ def invariants(tc, wd, w, h):
         out.append(("scrolling region", f"scrolling region [{tc.scrollregion_start},{tc.scrollregion_end}] not inside 0..{h - 1}"))
     if not (0 <= tc.scrolling_up <= len(tc.scrollback_buffer)):
         out.append(("scrolling_up", f"scrolling_up {tc.scrolling_up} outside 0..{len(tc.scrollback_buffer)}"))
+    if len(tc.tabstops) * 8 < w:  # emulator state `tabstops` (one bit per column): HT / HTS / TBC index it by the cursor column
+        out.append(("tab-stop table", f"tab-stop table has {len(tc.tabstops)} bytes = {len(tc.tabstops) * 8} columns, the screen has {w}"))
     for rep in wd.replies:
         p = reply_problem(rep)
         if p:
@@ -319,6 +323,11 @@ def run_history(enc, size, focus, ops, timeout=2.0):
                         tc.scroll_buffer(reset=True)
                     elif op[0] == "tail":
                         tc.addstr(tail_bytes(h))
+                    elif op[0] == "feedx":  # ("feedx", bytes, column the cursor must be in afterwards): tab-stop oracle, no GI pass
+                        tc.addstr(op[1])
+                        if tc.term_cursor[0] != op[2]:
+                            found.setdefault("cursor column", f"after op {i} {_op_json(op)}: cursor in column {tc.term_cursor[0]}, expected {op[2]} (size {w}x{h})")
+                        continue
                     else:
                         raise AssertionError(op)
                     note(f"after op {i} {_op_json(op)}", invariants(tc, wd, w, h))
@@ -338,6 +347,8 @@ def _op_json(op):
 def _op_unjson(op):
     if op[0] in ("feed", "feed1"):
         return (op[0], bytes.fromhex(op[1]))
+    if op[0] == "feedx":
+        return (op[0], bytes.fromhex(op[1]), op[2])
     return tuple(op)
 
 
@@ -350,6 +361,8 @@ def _hist_detail(enc, size, focus, ops, probs, timeout):
     for op in ops:
         if op[0] in ("feed", "feed1"):
             py.append(f"t.addstr({op[1]!r})" + show)
+        elif op[0] == "feedx":
+            py.append(f"t.addstr({op[1]!r}); print(t.term_cursor, 'expected column', {op[2]})")
         elif op[0] == "resize":
             py.append(f"t.resize({op[1]}, {op[2]})" + show)
             cur_h = op[2]
@@ -578,6 +591,132 @@ def check_view_shape(tier, seed, sh):
                                 ops.append(("feed", more))
                             ops += [("view", True, None), ("view", False, 1), ("view_reset",)]
                             _eval_history(chk, (size, n, k, tgt, order, more), "utf8", size, True, ops)
+    return [chk]
+
+
+class TabOracle:
+    """Cursor column and tab stops of a VT100 whose screen can be resized (written from the VT100 user guide: HT moves
+    to the next stop or, if there is none, to the last column; HTS = ESC H sets a stop at the cursor, TBC = CSI 0 g
+    clears the one at the cursor, CSI 3 g clears all; power-up / RIS = ESC c: a stop every 8 columns).  A resize keeps
+    the stops the program set or cleared, gives columns the screen never had their default stop (every 8th column),
+    and keeps the cursor in its column where that still exists."""
+
+    def __init__(self, w):
+        self.w, self.x, self.stops, self.known = w, 0, set(range(0, w, 8)), w
+
+    def resize(self, w):
+        self.stops |= {c for c in range(self.known, w) if c % 8 == 0}
+        self.known, self.w, self.x = max(self.known, w), w, min(self.x, w - 1)
+
+    def feed(self, tok):
+        """tok: ("HT",) ("CR",) ("CUP", col0) ("HTS",) ("TBC0",) ("TBC3",) ("RIS",) -> bytes"""
+        k = tok[0]
+        if k == "HT":
+            self.x = min([c for c in self.stops if self.x < c < self.w], default=self.w - 1)
+            return b"\t"
+        if k == "CR":
+            self.x = 0
+            return b"\r"
+        if k == "CUP":
+            self.x = min(tok[1], self.w - 1)
+            return ESC + b"[1;%dH" % (tok[1] + 1)
+        if k == "HTS":
+            self.stops.add(self.x)
+            return ESC + b"H"
+        if k == "TBC0":
+            self.stops.discard(self.x)
+            return ESC + b"[g"
+        if k == "TBC3":
+            self.stops.clear()
+            return ESC + b"[3g"
+        if k == "RIS":
+            self.x, self.stops, self.known = 0, set(range(0, self.w, 8)), self.w
+            return ESC + b"c"
+        raise AssertionError(tok)
+
+
+TAB_START_WIDTHS = [1, 7, 8, 9, 16]
+TAB_TARGET_WIDTHS = [1, 7, 8, 9, 10, 14, 16, 17, 20, 30, 41]
+TAB_CHAINS = [(a,) for a in TAB_TARGET_WIDTHS] + [(a, b) for a in (1, 8, 17, 20) for b in (9, 17, 30) if a != b]
+TAB_PRE = ["none", "HTS@3", "HTS@last", "TBC0@8", "TBC3", "RIS"]
+
+
+def _tab_history(w0, pre, chain, heights, split):
+    """ops for: optional tab-stop edit at the start size, the resizes of `chain` (heights from `heights`), then the
+    probe: a walk by HT over the whole line, HT from every column, and HTS / TBC 0 at columns the last widening added
+    (the first column of the first new tab-stop byte, the first new column, the last column), each followed by a
+    walk, finally TBC 3 and a walk.  `split`: the first cursor addressing after the last resize arrives in two feeds
+    with the resize in between."""
+    o = TabOracle(w0)
+    ops = []
+
+    def fx(*tok):
+        b = o.feed(tok)
+        ops.append(("feedx", b, o.x))
+
+    def walk():
+        fx("CR")
+        while o.x < o.w - 1:
+            fx("HT")
+        fx("HT")  # in the last column: stays
+
+    if pre == "HTS@3":
+        fx("CUP", 3), fx("HTS")
+    elif pre == "HTS@last":
+        fx("CUP", w0 - 1), fx("HTS")
+    elif pre == "TBC0@8":
+        fx("CUP", 8), fx("TBC0")
+    elif pre != "none":
+        fx(pre)
+    prev = w0
+    for k, w in enumerate(chain):
+        last = k == len(chain) - 1
+        if last and split:
+            ops.append(("feed", ESC + b"[1;"))
+        prev = o.w
+        o.resize(w)
+        ops.append(("resize", w, heights[k % len(heights)]))
+        if last and split:
+            o.x = min(w - 1, o.w - 1)
+            ops.append(("feedx", b"%dH" % w, o.x))
+    w = o.w
+    walk()
+    for c in range(w):
+        fx("CUP", c), fx("HT")
+    new_byte = (prev + 7) // 8 * 8
+    for p in sorted({c for c in (new_byte, prev, w - 1, new_byte + 3) if 0 <= c < w}):
+        fx("CUP", p), fx("HTS")
+        walk()
+        fx("CUP", p), fx("TBC0")
+        walk()
+        ops.append(("feed", b""))  # a GI pass
+    fx("TBC3")
+    walk()
+    ops.append(("tail",))
+    return ops
+
+
+def check_tabs_resize(tier, seed, sh):
+    chk = SigCheck("C15/robust-tabs-resize", "start width x optional tab-stop edit (HTS, TBC 0, TBC 3, RIS) x one or two resizes that widen within / across one / across several multiples of 8 columns, shrink, or shrink then widen (with and without a change of height; optionally in the middle of a cursor-addressing sequence split over two feeds), then HT from every column, a walk by HT over the line, HTS / TBC 0 in the columns the resize added (each followed by a walk), TBC 3: no exception, GI incl. a tab-stop entry for every column after every step, and the cursor column after every token equals that of a VT100 with default stops every 8 columns that persist / extend over resizes", True, f"start widths {TAB_START_WIDTHS} x height 2, edits {TAB_PRE}, {len(TAB_CHAINS)} resize chains over widths {TAB_TARGET_WIDTHS} (pairs: (1|8|17|20) then (9|17|30)), heights constant 2 or 3-then-1, split or whole first CUP")
+    for w0 in TAB_START_WIDTHS:
+        for pre in TAB_PRE:
+            if (pre == "HTS@3" and w0 <= 3) or (pre == "TBC0@8" and w0 <= 8):
+                continue
+            for chain in TAB_CHAINS:
+                if not sh.mine():
+                    continue
+                for heights in ((2,), (3, 1)):
+                    for split in (False, True):
+                        ops = _tab_history(w0, pre, chain, heights, split)
+                        widened = any(-(-b // 8) > -(-a // 8) for a, b in zip((w0, *chain), chain))
+                        probs = run_history("utf8", (w0, 2), True, ops)
+                        key = (w0, pre, chain, heights, split)
+                        if not probs:
+                            chk.case(key, True, None, widened, sample={"enc": "utf8", "size": [w0, 2], "pre": pre, "resizes": list(chain), "ops": len(ops)})
+                        else:
+                            d = _hist_detail("utf8", (w0, 2), True, ops, probs, 2.0)
+                            d.update(pre=pre, resizes=list(chain))
+                            chk.case(key, False, d, True, sig=d["sig"])
     return [chk]
 
 
@@ -997,7 +1136,7 @@ def check_scrollback(tier, seed, sh):
 
 # --------------------------------------------------------------------------------------------------
 def _plan(tier):
-    plan = [("check_robust_bytes", ()), ("check_robust_csi", ()), ("check_robust_huge", ()), ("check_robust_osc", ()), ("check_robust_charset", ()), ("check_view_shape", ())]
+    plan = [("check_robust_bytes", ()), ("check_robust_csi", ()), ("check_robust_huge", ()), ("check_robust_osc", ()), ("check_robust_charset", ()), ("check_view_shape", ()), ("check_tabs_resize", ())]
     plan += [("check_faithful_family", (name,)) for name in families(tier)]
     plan += [("check_faithful_mixed", ()), ("check_scrollback", ())]
     return plan
@@ -1030,7 +1169,7 @@ def run(tier="quick", seed=0):
             else:
                 chk.t0 = min(chk.t0, t0)
                 merged[chk.name] = chk
-    bound = "TermCanvas with a fake widget; robustness: 24-byte alphabet strings <= " + ("2 (+sampled 3)" if tier == "quick" else "3") + f" x sizes {SIZES} x resizes/chunkings x encodings, all CSI finals x parameter lists incl. 70000 and 10^9, OSC/charset/UTF-8 payloads, scrolled-back view x resizes; no two rows of term/scroll-back the same object after every step; faithfulness: exhaustive token sequences per family (length 3-7 by family; incl. resizes as tokens from 3x2 to heights +1/+2/+3 and widths +2/+3 with empty and partly sufficient scroll-back, SGR sequences mixing 24-bit/256/basic/bright colours with non-resetting SGRs, one-column screens) + seeded random mixes vs spec/vt100.py; scrollback: token sequences <= " + ("4" if tier == "quick" else "5")
+    bound = "TermCanvas with a fake widget; robustness: 24-byte alphabet strings <= " + ("2 (+sampled 3)" if tier == "quick" else "3") + f" x sizes {SIZES} x resizes/chunkings x encodings, all CSI finals x parameter lists incl. 70000 and 10^9, OSC/charset/UTF-8 payloads, scrolled-back view x resizes, tab stops (HT/HTS/TBC) after resizes from widths 1..16 to widths 1..41; no two rows of term/scroll-back the same object after every step; faithfulness: exhaustive token sequences per family (length 3-7 by family; incl. resizes as tokens from 3x2 to heights +1/+2/+3 and widths +2/+3 with empty and partly sufficient scroll-back, SGR sequences mixing 24-bit/256/basic/bright colours with non-resetting SGRs, one-column screens) + seeded random mixes vs spec/vt100.py; scrollback: token sequences <= " + ("4" if tier == "quick" else "5")
     return {"checks": [c.result() for c in merged.values()], "bound": bound}
 
 
